@@ -131,7 +131,7 @@ func driveScripted(c *hk.Ctx, call caller, p plan, tag string, idOf func(string)
 	}()
 	returned := map[string]bool{}
 	sentinelID := strconv.FormatInt(p.start+int64(p.k), 10)
-	deadline := time.After(ceiling)
+	deadline := time.After(callCeiling())
 	sentinelBack := false
 	for !sentinelBack {
 		select {
@@ -141,6 +141,7 @@ func driveScripted(c *hk.Ctx, call caller, p plan, tag string, idOf func(string)
 				sentinelBack = true
 			}
 		case <-deadline:
+			degraded.Store(true)
 			sentinelBack = true // give up: everything left is cancelled below and shows up as a disagreement
 		}
 	}
@@ -255,10 +256,11 @@ func scriptedLegacy(c *hk.Ctx, p plan) {
 		return
 	}
 	defer cl.Close()
-	ictx, icancel := context.WithTimeout(context.Background(), ceiling)
+	ictx, icancel := context.WithTimeout(context.Background(), callCeiling())
 	_, err = cl.Initialize(ictx, &mcp.InitializeRequest{})
 	icancel()
 	if err != nil {
+		degraded.Store(true)
 		c.Violate(hk.Violation{Fingerprint: "pending:harness:initialize:scripted-legacy", What: err.Error()})
 		return
 	}
@@ -286,10 +288,11 @@ func scriptedStdio(c *hk.Ctx, p plan, round int) {
 		return
 	}
 	defer endStdioPeer(sc)
-	ictx, icancel := context.WithTimeout(context.Background(), ceiling)
+	ictx, icancel := context.WithTimeout(context.Background(), callCeiling())
 	_, err = sc.Initialize(ictx, &mcp.InitializeRequest{})
 	icancel()
 	if err != nil {
+		degraded.Store(true)
 		c.Violate(hk.Violation{Fingerprint: "pending:harness:initialize:scripted-stdio", What: err.Error()})
 		return
 	}
@@ -383,10 +386,11 @@ func scriptedStreamable(c *hk.Ctx, mode string, start int64) {
 		return
 	}
 	defer cl.Close()
-	ictx, icancel := context.WithTimeout(context.Background(), ceiling)
+	ictx, icancel := context.WithTimeout(context.Background(), callCeiling())
 	_, err = cl.Initialize(ictx, &mcp.InitializeRequest{})
 	icancel()
 	if err != nil {
+		degraded.Store(true)
 		c.Violate(hk.Violation{Fingerprint: "pending:harness:initialize:scripted-streamable", What: err.Error()})
 		return
 	}
